@@ -329,7 +329,7 @@ def run(ctx):
                 else:
                     return t[0] in ("param", "upvar", "self_closure", "built", "phi", "const")
 
-        def _env(different):
+        def _env(different, row="Some"):
             def env_of(t):
                 if t[0] == "call" and t[1].split("::")[-1] in ("eq", "ne") and len(t[2]) == 2:
                     a0, a1 = t[2]
@@ -339,11 +339,11 @@ def run(ctx):
                 if t[0] in ("discr", "un", "bin", "const", "cast", "ref", "deref"):
                     return None
                 if t[0] == "field" and mentions(t, "get") and not mentions(t, "value") and not mentions(t, "as Some"):
-                    return "Some"       # the row read by get (after `?`): present
+                    return row          # the row read by get (after `?`): present / absent
                 if t[0] == "call" and t[1].split("::")[-1] in ("is_some", "is_none", "not"):
                     return None
                 if mentions(t, "get") and not mentions(t, "value") and t[0] == "call":
-                    return "Some"
+                    return row
                 return None
             return env_of
         eb_ = set(eb)
@@ -354,9 +354,10 @@ def run(ctx):
             return {b_ for (b_, st_) in explore_under.returned if not (isinstance(st_.get(0), tuple) and st_[0][0] == "V" and st_[0][1] == "Err")}
         ok_diff = _ok_returns(_env(True))
         ok_same = _ok_returns(_env(False))
+        ok_absent = _ok_returns(_env(None, row="None"))
         # the path reading of the same clause (knows the match / if spelling; a combinator chain has one path and no test on it)
         for (present, equal) in ok_paths:
-            R.ob((present is True and equal is True) or (not ok_diff and bool(ok_same)), "GUARD", f.where(), "GUARD|ConfigDatabase::validate|ok-path",
+            R.ob((present is True and equal is True) or (not ok_diff and not ok_absent and bool(ok_same)), "GUARD", f.where(), "GUARD|ConfigDatabase::validate|ok-path",
                  "validate returns Ok on a path where the row is %s and the comparison is %s" % (
                      {True: "present", False: "absent", None: "not inspected"}[present], {True: "equal", False: "different", None: "not made"}[equal]),
                  sample={"rule": "GUARD", "fn": "ConfigDatabase::validate", "ok_path": "present and equal"})
@@ -364,6 +365,10 @@ def run(ctx):
              "validate can return Ok although the recorded value differs from the supplied one (Ok return reachable at bb%s with the equality test false): "
              "a directory recorded under another version / network reopens" % sorted(ok_diff)[:3],
              sample={"rule": "GUARD (abstract execution)", "fn": "ConfigDatabase::validate", "row": "present, recorded != supplied => no Ok return"})
+        R.ob(not ok_absent, "GUARD", f.where(), "GUARD|ConfigDatabase::validate|absent=>Err",
+             "validate can return Ok although the row is absent (Ok return reachable at bb%s with the row read as None): a directory with a missing record "
+             "(tampered, or half-initialised) reopens" % sorted(ok_absent)[:3],
+             sample={"rule": "GUARD (abstract execution)", "fn": "ConfigDatabase::validate", "row": "absent => no Ok return"})
         R.ob(bool(ok_same), "GUARD", f.where(), "GUARD|ConfigDatabase::validate|equal=>Ok", "validate cannot return Ok for an equal recorded value")
         gets = [c for c in f.calls() if (c.method or "") == "get" and not f.is_cleanup(c.bb)]
         R.ob(bool(gets) and err_propagated(f, gets[0]), "ERR-prop", f.where(), "ERR-prop|ConfigDatabase::validate|get", "the read error is dropped")
